@@ -100,6 +100,9 @@ type customCfg struct {
 	Clear    bool `json:"clear"`
 	IsDef    bool `json:"isdef"`
 	IsDefVal bool `json:"isdefval"`
+	// IsBoolFalse: the IsBoolFlag method is present (isbool) but answers false: the value then takes a
+	// value like any other option
+	IsBoolFalse bool `json:"isboolfalse"`
 }
 
 type declSpec struct {
@@ -269,8 +272,9 @@ var errCustomFail = errors.New("custom-fail")
 
 // core is shared by the 8 instrumented flag.Value types
 type core struct {
-	log      []string
-	isDefVal bool
+	log       []string
+	isDefVal  bool
+	boolFalse bool
 }
 
 func (c *core) Set(s string) error {
@@ -299,10 +303,10 @@ type cvB0D struct{ *core }
 type cv0CD struct{ *core }
 type cvBCD struct{ *core }
 
-func (cvB00) IsBoolFlag() bool { return true }
-func (cvBC0) IsBoolFlag() bool { return true }
-func (cvB0D) IsBoolFlag() bool { return true }
-func (cvBCD) IsBoolFlag() bool { return true }
+func (v cvB00) IsBoolFlag() bool { return !v.core.boolFalse }
+func (v cvBC0) IsBoolFlag() bool { return !v.core.boolFalse }
+func (v cvB0D) IsBoolFlag() bool { return !v.core.boolFalse }
+func (v cvBCD) IsBoolFlag() bool { return !v.core.boolFalse }
 
 func (v cv0C0) Clear() { v.core.doClear() }
 func (v cvBC0) Clear() { v.core.doClear() }
@@ -318,7 +322,7 @@ func newCustom(cfg *customCfg) (flag.Value, *core) {
 	if cfg == nil {
 		cfg = &customCfg{}
 	}
-	c := &core{log: []string{}, isDefVal: cfg.IsDefVal}
+	c := &core{log: []string{}, isDefVal: cfg.IsDefVal, boolFalse: cfg.IsBoolFalse}
 	switch {
 	case !cfg.IsBool && !cfg.Clear && !cfg.IsDef:
 		return cv000{c}, c
